@@ -80,12 +80,26 @@ func ruleC04R1(r *Run, le *LockEngine) {
 				r.Check(name+" ack."+field+" under lock", h[mu] == modeW, posOf(p, st), name, fmt.Sprintf("locks held: %v", h))
 			}
 		}
-		// resets
+		// resets: measured from the read of each buffer that flows into the ack (not from the literal, so that
+		// "read into temporaries, reset, then build the ack" is accepted as well)
+		anchorOf := func(field string) ssa.Instruction {
+			if st := lit.Stores[field]; st != nil {
+				if ld, ok := canonVal(st.Val).(*ssa.UnOp); ok {
+					return ld
+				}
+				if ld, ok := st.Val.(*ssa.UnOp); ok {
+					return ld
+				}
+			}
+			return lit.Alloc
+		}
+		fieldOfBuf := map[string]string{ackBuffers[0]: "UpstreamAliases", ackBuffers[1]: "DataIDAliases", ackBuffers[2]: "Results"}
 		anchor := ssa.Instruction(lit.Alloc)
 		sends := findCalls(fn, false, "/wire.ClientConn.SendDownstreamDataPointsAck")
 		for _, buf := range ackBuffers {
 			var val ssa.Value
 			var resetIns ssa.Instruction
+			anchor = anchorOf(fieldOfBuf[buf])
 			w := reachesWithout(anchor, func(ins ssa.Instruction) bool {
 				if isReturn(ins) {
 					return true
